@@ -521,3 +521,22 @@ def presence_by_flag(ctx):
                                 'an EC-multiplied key with the lot/sequence flag and lot = 0, sequence = 0 is decrypted without the owner-entropy step: the right passphrase is refused')
     ctx.saw('%d truthiness tests on local names in the BIP38 functions: none on an integer decoded from the payload' % n)
     ctx.floor(n, 5, 'truthiness tests')
+
+
+@PROP.obligation('C15.verify-network', canaries=[
+    mut.replace_expr('keys', 'HDKey._bip38_decrypt', 'HDKey(priv, compressed=compressed, network=network, witness_type=witness_type)', 'HDKey(priv, compressed=compressed, witness_type=witness_type)', 'address hash of an HDKey import verified on bitcoin mainnet'),
+])
+def verify_network(ctx):
+    """The address whose hash proves the passphrase is the address of the recovered key ON THE NETWORK the caller named: in both
+    sibling decrypt entries (Key._bip38_decrypt, HDKey._bip38_decrypt) the verification key is constructed with network=network and the
+    compression flag taken from the BIP38 flag byte (the address hash was computed over the address of that network)."""
+    for q, ctor in (('keys:Key._bip38_decrypt', 'Key'), ('keys:HDKey._bip38_decrypt', 'HDKey')):
+        fn = ctx.repo.func(q)
+        calls = [c for c in ast.walk(fn) if isinstance(c, ast.Call) and norm(c.func) == ctor and c.args and norm(c.args[0]) == 'priv']
+        if len(calls) != 1:
+            ctx.undecided('%s: construction of the verification key not found' % q)
+        kw = {k.arg: norm(k.value) for k in calls[0].keywords}
+        ctx.saw('%s verifies with %s(priv, %s)' % (q, ctor, ', '.join('%s=%s' % kv for kv in sorted(kw.items()))))
+        ctx.require(kw.get('network') == 'network', q, 'the verification key is built with network=%s: its address is not the one of the network the caller named' % kw.get('network', 'the default (bitcoin)'), calls[0],
+                    'a testnet / litecoin BIP38 key imported through HDKey or a wallet is refused with the right passphrase; a bitcoin key imported with network=litecoin is accepted')
+        ctx.require(kw.get('compressed') == 'compressed', q, 'the verification key is built with compressed=%s, not the flag decoded from the key' % kw.get('compressed'), calls[0])
